@@ -695,6 +695,24 @@ def fold_equalities(ctx, hyps, goal, timeout_ms):
 
 
 def discharge(ctx, ob, timeout_ms=None, outside=None, known_ids=()):
+    """the tactic pipeline, repeated with other solver seeds when it neither proves nor refutes: whether e-matching meets the
+    needed instances before the budget ends depends on the instantiation order, which the seed permutes"""
+    res = _discharge(ctx, ob, timeout_ms, outside, known_ids)
+    if res['verdict'] == 'unknown' and not getattr(ob, 'trivial', False):
+        for seed in (1, 2):
+            ctx.z3_seed = seed
+            try:
+                r2 = _discharge(ctx, ob, timeout_ms, outside, known_ids)
+            finally:
+                ctx.z3_seed = 0
+            if r2['verdict'] in ('proved', 'proved-outside-known'):
+                r2['backend'] = f"{r2.get('backend')} (solver seed {seed})"
+                r2['seconds'] = round((res.get('seconds') or 0) + (r2.get('seconds') or 0), 3)
+                return r2
+    return res
+
+
+def _discharge(ctx, ob, timeout_ms=None, outside=None, known_ids=()):
     timeout_ms = timeout_ms or Z3_TIMEOUT_MS
     res = {'id': ob.id, 'kind': ob.kind, 'desc': ob.desc, 'lineno': ob.lineno}
     t0 = time.time()
